@@ -38,7 +38,7 @@ from c03_lib import Ref  # noqa: E402
 KINDS = ['file', 'demo:file:mapping', 'demo:mapping:mapping', 'mapping']
 HEX_KINDS = ['hex:file', 'hex:demo:file:mapping', 'hex:demo:mapping:mapping']
 RECORD_CLASSES = [(11, 0), (11, 0), (12, 0), (13, 1), (11, 2), (1, 0), (2, 0), (3, 0), (4, 0), (9, 0), (8, 0),
-                  (9, 2), (14, 1), (15, 0), (15, 0), (16, 0), (17, 1), (18, 0)]
+                  (9, 2), (14, 1), (15, 0), (15, 0), (16, 0), (17, 1), (18, 0), (19, 0), (19, 0), (21, 0)]
 
 
 # =============================================================================== generators
@@ -98,7 +98,7 @@ def gen_storage_case(rng, kind):
 
     def rec0(oid, c=None, a=None):
         c, a = klass[oid] if c is None else (c, a)
-        if c == 1:
+        if c in (1, 21):
             tree = rng.randrange(50)
         elif c == 15 and rng.random() < 0.35:
             tree = 13           # the Moody resolver raises AttributeError for this wanted state
@@ -137,6 +137,8 @@ def gen_storage_case(rng, kind):
             else:
                 ops.append('store %d %d %d %s' % (t, oid, serial, rec(oid)))
             stored.append(oid)
+            if rng.random() < 0.3:
+                ops.append('bystander')     # another storage of the process runs a 2PC between store and vote
         if rng.random() < 0.15:                     # an unrelated new object in the same transaction
             ops.append('store %d %d 0 %s' % (t, 5000 + w, L.rec_wire(2, 0, w)))
         ops.append('vote %d' % t)
@@ -188,7 +190,7 @@ def gen_undo_chain_case(rng, kind):
     without pickle) followed by the undo of an OLDER transaction, whose resolver call must be given
     the data the back pointer designates as the current state; also undo of an undo"""
     cid, args = rng.choice([(11, 0), (11, 0), (12, 0), (13, 1), (11, 2), (12, 0), (2, 0), (3, 0), (4, 0), (16, 0),
-                            (17, 1), (18, 0)])
+                            (17, 1), (18, 0), (19, 0)])
     oid = rng.choice([1, 7])
     n = rng.choice([4, 4, 5, 6])
     recs = []
@@ -252,13 +254,13 @@ def gen_spec(rng, depth):
 
 def gen_db_case(rng, kind):
     xcls = rng.choice(['Merge11', 'Merge11', 'Merge12', 'NewArgs', 'Counter', 'Raises', 'Conflicts', 'Plain',
-                       'NeedsArg', 'NeedsArgNew', 'SideEffect', 'Moody'])
+                       'NeedsArg', 'NeedsArgNew', 'SideEffect', 'Moody', 'DeepMerge', 'DeepMerge'])
     nconn = rng.choice([2, 2, 3])
 
     specs = []
 
     def spec():
-        sp = ['int', rng.randrange(50)] if xcls == 'Counter' else gen_spec(rng, rng.choice([1, 2, 3]))
+        sp = ['int', rng.randrange(50)] if xcls in ('Counter', 'Length') else gen_spec(rng, rng.choice([1, 2, 3]))
         if specs and rng.random() < 0.2:
             sp = rng.choice(specs[-2:])        # the same wanted state as a concurrent writer
         specs.append(sp)
